@@ -11,6 +11,29 @@ BASELINE = ("cd /repo && /venv/bin/python -m pytest -ra -q -p no:cacheprovider -
 
 # pid -> (category, text, design_ref, level_note, technique)
 CLAIMED = {
+ "C02": ("model_checking",
+         "spec/Server.tla models one connection (Recv/Poll/Eof/Proc/Send/Close); TLC explores every delivery schedule of 1..2-frame "
+         "streams (ProcOnlyComplete, OneReplyEach, PartialNoEffect, ClosedStays); TLC-emitted streams (spec-encoded frames) are "
+         "delivered to the real enip_srv_tcp over a virtual socket whole, bytewise, per frame, at every two-way split, at every "
+         "truncation offset + EOF and in random k-way splits with timeouts; each session's event log is validated by TLC "
+         "(ServerTrace) including final tag memory and a follow-up connection.",
+         "5/C02", "virtual socket (scripted network.recv) around the real receive loop; client-side framing (client.__next__) is covered by C13",
+         "TLA+ connection model + TLC exhaustive schedules; real sessions over all splits/truncations validated by TLC trace spec"),
+ "C06": ("model_checking",
+         "Server.tla reply discipline: TLC explores all interleavings of Recv/Proc/Send for pipelined streams; sessions of 1..4 frames "
+         "of every service kind (successful, failing, bundles, unroutable, Unregister, distinct contexts/handles), delivered "
+         "pipelined / per frame / randomly to the real server; TLC accepts only exactly one reply per complete request, in order, "
+         "with echoed command/context/handle, the spec-computed SendRRData framing and CIP reply, error frame for unroutable "
+         "requests, non-zero Register handle, no reply and end of session for Unregister.",
+         "5/C06", "List* reply payloads not modelled (header only); random session handle only required non-zero",
+         "TLA+ connection model + TLC; pipelined sessions on the real server validated by TLC trace spec (replies re-derived by the spec)"),
+ "C15": ("model_checking",
+         "Server!RouteAccepted is the statement's decision table; the full matrix 6 personalities x 9 request route-path shapes x 4 "
+         "services runs on the real server configured as main() does; TLC validates: accepted => normal reply with model values, "
+         "refused => error status frame, session ends, memory unchanged, zero attribute accesses; spec-emitted route-path texts "
+         "must parse to the segments they spell.",
+         "5/C15", "configured multi-segment paths set through a UCMM subclass (main() itself only admits one segment)",
+         "TLA+ decision table + TLC; full configuration x request matrix on the real server validated by TLC trace spec"),
  "C03": ("model_checking",
          "TLC explores spec/Logix.tla (tags as typed arrays of octet-valued elements; every tag/attribute service as the set of "
          "outcomes the statements allow) over every catalogue request to depth 2-3 on several type-pair configurations and "
